@@ -215,7 +215,11 @@ def _conds_on(fnode, what):
     for n in ast.walk(fnode):
         if isinstance(n, ast.If) and what in norm_text(n.test) and 'is not None' in \
                 norm_text(n.test):
-            out.add(norm_text(n.test))
+            t = n.test
+            if isinstance(t, ast.BoolOp) and isinstance(t.op, ast.And):
+                out.add(' and '.join(sorted(norm_text(v) for v in t.values)))
+            else:
+                out.add(norm_text(t))
     return out
 
 
@@ -453,3 +457,137 @@ def meas_cols(ctx):
                % (gen.split('.')[-1], prod, cls.split('.')[-1], cons), f=g, key='cols-' + cls,
                why='simulator writes columns %s, %s selects %s and reads %s'
                    % (prod, cls, cons, sorted(used)))
+
+
+# ------------------------------------------------------------------ H-JACOBIAN
+from ..rotmodel import RotHooks, EulerOf          # noqa: E402
+
+
+class _JH(RotHooks):
+    """hooks for evaluating correct_pva and compute_matrices on the same symbolic state."""
+
+    def __init__(self):
+        self.series = None
+        self.data_atoms = {}
+
+    def call(self, ev, q, node, args, kwargs, env):
+        r = RotHooks.call(self, ev, q, node, args, kwargs, env)
+        if r is not NotImplemented:
+            return r
+        if q == 'numpy.hstack' and any(isinstance(x, EulerOf) for x in args[0]):
+            return Opaque('hstack', *args[0])
+        if q == 'pandas.Series':
+            self.series = (args, kwargs)
+            return Opaque('Series')
+        return NotImplemented
+
+    def attr(self, ev, base, a, node):
+        if isinstance(base, Opaque) and base.tag == 'data':
+            if a == 'index':
+                return Opaque('data.index')
+            if a == 'loc':
+                return Opaque('data.loc')
+        return RotHooks.attr(self, ev, base, a, node)
+
+    def subscript(self, ev, base, idx, node, env):
+        if isinstance(base, Opaque) and base.tag == 'data.loc':
+            cols = idx[1] if isinstance(idx, tuple) and len(idx) == 2 else None
+            if isinstance(cols, (list, tuple)) and all(isinstance(c, str) for c in cols):
+                out = SArray((len(cols),), {})
+                for i, c in enumerate(cols):
+                    out.entries[(i,)] = ev.A.sym('meas_' + c)
+                    self.data_atoms[c] = 'meas_' + c
+                return out
+        if isinstance(base, Rec) and getattr(base, 'euler', None) is not None and \
+                isinstance(idx, (list, tuple)) and list(idx) == list(self.rph_cols):
+            return base.euler
+        return None
+
+    def branch(self, ev, node, env):
+        if 'not in self.data.index' in norm_text(node.test):
+            return False
+        return None
+
+
+def meas_jacobian(ctx):
+    ctx.rule('H-JACOBIAN', 'H == - d z(correct_pva(pva, x)) / d x at x = 0 (evaluated at zero '
+             'position residual): the measurement matrix is the derivative of the residual with '
+             'respect to the error state under the library\'s own correction convention, '
+             'including lever-arm and angular-rate terms, in both altitude modes')
+    repo = ctx.repo
+    emc = repo.klass('error_model.InsErrorModel')
+    tcols = repo.const('util.TRAJECTORY_COLS')
+    rcols = repo.const('util.RATE_COLS')
+    lla_c = repo.const('util.LLA_COLS')
+    n = 0
+    for c, m in _subclasses(ctx):
+        has_lever = 'imu_to_antenna_b' in _all_attrs(c)
+        for wa in (True, False):
+            for lever, rates in (((True, True), (True, False), (False, False)) if has_lever
+                                 else ((False, False),)):
+                tag = '%s alt=%s lever=%s rates=%s' % (c.name, wa, lever, rates)
+                h = _JH()
+                h.rph_cols = repo.const('util.RPH_COLS')
+                ev = SymEval(repo, Alg(), hooks=h)
+                A = ev.A
+                em = Obj(emc)
+                ev.call_function(emc.methods['__init__'], [wa], {}, em)
+                ns = 9 if wa else 7
+                cols = {k: A.sym(k) for k in tcols}
+                if rates:
+                    for k in rcols:
+                        cols[k] = A.sym(k)
+                pva = Rec(cols, 'series')
+                selfo = Obj(c)
+                selfo.attrs['data'] = Opaque('data')
+                selfo.attrs['R'] = SArray((3, 3), {(i, j): (A.sym('sd2') if i == j else A.const(0))
+                                                   for i in range(3) for j in range(3)})
+                if has_lever:
+                    selfo.attrs['imu_to_antenna_b'] = (
+                        SArray((3,), {(i,): A.sym('l%d' % i) for i in range(3)}) if lever else None)
+                try:
+                    z0, H, R = ev.call_function(m, [A.sym('time'), pva, em], {}, selfo)
+                    xs = [A.sym('x%d' % i) for i in range(ns)]
+                    eps = A.sym('@e')
+                    x = SArray((ns,), {(i,): A.mul(eps, xs[i]) for i in range(ns)})
+                    A.trunc = ('@e', 1)
+                    h.series = None
+                    ev.call_function(emc.methods['correct_pva'],
+                                     [Rec({k: cols[k] for k in tcols}, 'series'), x], {}, em)
+                    args, kwargs = h.series
+                    data = kwargs.get('data', args[0] if args else None)
+                    lla2, v2, rph2 = data.parts
+                    c2 = {}
+                    for i, k in enumerate(tcols[:3]):
+                        c2[k] = lla2.get((i,))
+                    for i, k in enumerate(tcols[3:6]):
+                        c2[k] = v2.get((i,))
+                    for k in tcols[6:]:
+                        c2[k] = A.sym('unused_' + k)
+                    if rates:
+                        for k in rcols:
+                            c2[k] = cols[k]
+                    pva2 = Rec(c2, 'series')
+                    pva2.euler = rph2
+                    z1, _, _ = ev.call_function(m, [A.sym('time'), pva2, em], {}, selfo)
+                except Unsupported as e:
+                    A.trunc = None
+                    raise AnalysisError('%s: Jacobian check not analysable: %s' % (tag, e))
+                finally:
+                    A.trunc = None
+                zero_res = {'meas_' + k: cols[k] for k in lla_c}
+                bad = []
+                for i in range(z1.shape[0]):
+                    d1 = A.subst(A.diff(z1.get((i,)), '@e'), {'@e': A.const(0)})
+                    d1 = A.subst(d1, zero_res)
+                    for k in range(ns):
+                        want = A.neg(A.coeff(d1, 'x%d' % k)) if True else None
+                        if not A.eq(H.get((i, k)), want):
+                            bad.append((i, k))
+                n += 1
+                ctx.ob('H-JACOBIAN', not bad, None, '%s: H == -dz/dx' % tag, f=m,
+                       key='jac-' + tag,
+                       why='%s: measurement matrix differs from the derivative of the residual '
+                           'with respect to the error state at entries (row, state) %s'
+                           % (tag, bad[:6]))
+    ctx.floor('H-JACOBIAN', n, 10, 'configurations')
